@@ -372,8 +372,8 @@ func (olds Segment) Rename(news Segment) error {
 }
 
 func (olds Segment) Override(news Segment) error {
-	// remove index segment so we don't have invalid index
-	if err := os.Remove(news.Index); err != nil {
+	// remove index segment so we don't have invalid index; it is derived data and may be missing already
+	if err := os.Remove(news.Index); err != nil && !errors.Is(err, os.ErrNotExist) {
 		return fmt.Errorf("override index delete: %w", err)
 	}
 
@@ -392,7 +392,8 @@ func (olds Segment) Override(news Segment) error {
 }
 
 func (s Segment) Remove() error {
-	if err := os.Remove(s.Index); err != nil {
+	// the index is derived data and may be missing already
+	if err := os.Remove(s.Index); err != nil && !errors.Is(err, os.ErrNotExist) {
 		return fmt.Errorf("remove index delete: %w", err)
 	}
 	if err := os.Remove(s.Log); err != nil {
